@@ -1,5 +1,11 @@
 package props
 
-import "golang.org/x/tools/go/ssa"
+import (
+	"go/token"
+
+	"golang.org/x/tools/go/ssa"
+)
 
 type ssaFn = ssa.Function
+
+type tokenPos = token.Pos
